@@ -14,6 +14,7 @@ from checks import wcommon, C01, C02
 FUNCS = C01.FUNCS + ['_top_level_dir_properties._read', '_top_level_dir_properties._get_bounds', 'list_drf._yield_matching_files']
 READER = {'_two_files': 'a reader pass opens only files that are readable at that moment, skips vanished ones, returns exactly their blocks',
           '_cache_sequence': 'a long-lived reader: a pass over file names that do not exist (any more / yet) between two reads of a file leaves the second read equal to the first (no stale cached handle)',
+          '_appearing_file': 'a long-lived reader sees a file that was not finalized yet when an earlier pass probed it as soon as it exists (monotone visibility: nothing about a failed probe is remembered)',
           '_bounds_scan': 'bounds skip files that vanished or cannot be read yet, never raise',
           '_read_lengths': 'per-file block extraction depends only on that file (index + length)'}
 LISTING = {'_listing_fwd_rf_gone1': 'listing tolerates a subdirectory vanishing between the scan and the listing',
